@@ -100,7 +100,10 @@ fn main() {
     std::panic::set_hook(Box::new(|info| {
         let was = galloc::is_recording();
         galloc::recording_off();
-        if !was || std::env::var_os("BVH_SHOW_PANICS").is_some() {
+        // panics raised inside the standard library (debug precondition checks of ptr::copy_nonoverlapping,
+        // slice::from_raw_parts, …) cannot unwind and abort the process: always show what they say
+        let in_std = info.location().map(|l| l.file().contains("/library/")).unwrap_or(false);
+        if !was || in_std || std::env::var_os("BVH_SHOW_PANICS").is_some() {
             eprintln!("harness panic (recording={}): {}", was, info);
         }
     }));
@@ -150,10 +153,14 @@ fn main() {
             let faults = kv(&toks, "faults").unwrap_or("some");
             let shape = kv(&toks, "shape").unwrap_or("0");
             let ms: Vec<usize> = kv(&toks, "ms").unwrap_or("1,2,4,8,16").split(',').filter_map(|s| s.parse().ok()).collect();
+            let skip: Vec<usize> = kv(&toks, "skip").unwrap_or("").split(',').filter_map(|s| s.parse().ok()).collect();
             let mut r = Rng::new(seed);
             for i in 0..n {
                 let m = ms[i % ms.len()];
                 let pseed = r.next() >> 1;
+                if skip.contains(&i) {
+                    continue;
+                }
                 let mut fr = Rng::new(pseed ^ 0xF00D);
                 let fault = match faults {
                     "none" => Fault::None,
